@@ -10,7 +10,6 @@ Init == i = 0
 Next == \/ i = 0 /\ i' \in {-b : b \in 1..NB}
         \/ i < 0 /\ i' \in (((-i) - 1) * BSize + 1)..(IF (-i) * BSize < N THEN (-i) * BSize ELSE N)
 Spec == Init /\ [][Next]_i
-St0 == [itrait |-> "none", stored |-> "unset", cached |-> FALSE]
 \* first failing step as <<k, clause>> or <<0, "">>
 RECURSIVE Run(_, _, _)
 Run(c, st, k) ==
